@@ -355,6 +355,10 @@ func (fr *Frame) applyContract(st *State, fc *FuncContract, sig *types.Signature
 		}
 	}
 	for _, e := range fc.Ensures {
+		// clauses about the callee's ghost state or final locals cannot be stated at a call site
+		if mentionsInternal(e.E, fc) {
+			continue
+		}
 		fr.assume(st, fr.evalBool(post, e.E))
 	}
 	return res
@@ -663,4 +667,54 @@ func (fr *Frame) devirtualise(st *State, cc *ssa.CallCommon, impls []implMethod,
 	*st = *m
 	st.pc = pc
 	return out
+}
+
+// mentionsInternal: the clause refers to ghost variables of the callee or to final(local).
+func mentionsInternal(e Expr, fc *FuncContract) bool {
+	ghost := map[string]bool{}
+	for _, g := range fc.Ghosts {
+		ghost[g.Name] = true
+	}
+	found := false
+	var walk func(e Expr)
+	walk = func(e Expr) {
+		if found || e == nil {
+			return
+		}
+		switch x := e.(type) {
+		case *EIdent:
+			if ghost[x.Name] {
+				found = true
+			}
+		case *EBin:
+			walk(x.X)
+			walk(x.Y)
+		case *EUn:
+			walk(x.X)
+		case *ECall:
+			if id, ok := x.Fun.(*EIdent); ok && id.Name == "final" {
+				found = true
+				return
+			}
+			walk(x.Fun)
+			for _, a := range x.Args {
+				walk(a)
+			}
+		case *ESel:
+			walk(x.X)
+		case *EIndex:
+			walk(x.X)
+			walk(x.I)
+		case *ESlice:
+			walk(x.X)
+			walk(x.Lo)
+			walk(x.Hi)
+		case *ECond:
+			walk(x.C)
+			walk(x.A)
+			walk(x.B)
+		}
+	}
+	walk(e)
+	return found
 }
